@@ -208,6 +208,9 @@ def run(ctx, res):
     check_finalexp(res, facts)
     check_scalar(res, facts)
     check_prepared(res, facts)
+    from rules import c06_finalexp
+    from arklib.configs import Registry
+    c06_finalexp.check_exponent(res, facts, Registry(facts, ("ws", "curves")))
     return {
         "level": "other",
         "explanation": "Sibling-agreement and dataflow rules over the MIR of the five pairing models in ark-ec (serial and parallel feature configurations) and the hand-written CP6-782 pairing: identity-pair filtering, chunk-count independence of the chunked Miller loops, agreement of the bit strings walked by G2 preparation and the loop (discharged per shipped configuration from the constant table), None-propagation in the final exponentiation. Bilinearity, non-degeneracy and the hard-part addition chains are theorems about the whole computation and are NOT decided.",
